@@ -20,6 +20,10 @@ def cases(tier, rng):
         n = rng.choice([2, 3, 4])
         g = ref.Gen(rng, n=n, use_sub=(i % 2 == 0), bracket=(i % 2 == 0), max_depth=2)
         p = g.program()
+        if i % 3 == 0:
+            # boundary counts written out: 0 and 1 differ in meaning, and 1 written explicitly equals the default
+            p["body"].append(("sub", rng.choice([0, 1]), [("gate", "X", [("q", "q", 0)])]))
+            p["body"].append(("loop", rng.choice([0, 1]), [("sub", None, [("gate", "H", [("q", "q", 0)])])]))
         text = ref.to_text(p)
         yield text, {"text": text}, True
 
@@ -29,7 +33,7 @@ def mutants(text):
     for i, t in enumerate(toks):
         alts = []
         if re.fullmatch(r"-?\d+", t):
-            alts = [str(int(t) + 1)]
+            alts = [str(int(t) + 1)] + ([str(int(t) - 1)] if int(t) > 0 else [])
         elif re.fullmatch(r"-?\d+\.\d+", t):
             alts = [str(float(t) + 0.5)]
         elif t in ("X", "H"):
@@ -62,6 +66,45 @@ def mutants(text):
             yield "".join(m)
 
 
+def sub_counts_text(text, lets):
+    """the subcircuit counts as WRITTEN (an independent reading of the text, not of the library's objects)"""
+    out = []
+    for m in re.finditer(r"subcircuit\s+(?:(-?\d+)|([A-Za-z_]\w*))?\s*\{", text):
+        if m.group(1) is not None:
+            out.append(int(m.group(1)))
+        elif m.group(2) is not None:
+            out.append(lets.get(m.group(2), m.group(2)))
+        else:
+            out.append(1)
+    return out
+
+
+def sub_counts_circ(c):
+    from jaqalpaq.core import BlockStatement, LoopStatement
+    out = []
+
+    def walk(b):
+        for st in b.statements:
+            if isinstance(st, BlockStatement):
+                if st.subcircuit:
+                    it = st.iterations
+                    out.append(getattr(it, "value", it) if not isinstance(it, int) else it)
+                walk(st)
+            elif isinstance(st, LoopStatement):
+                walk_loop(st)
+
+    def walk_loop(lp):
+        body = lp.statements
+        if body.subcircuit:
+            it = body.iterations
+            out.append(getattr(it, "value", it) if not isinstance(it, int) else it)
+        walk(body)
+    for mac in c.macros.values():
+        walk(mac.body) if not mac.body.subcircuit else walk(type("B", (), {"statements": [mac.body]})())
+    walk(c.body)
+    return out
+
+
 def decls(c):
     return ([(k, v.value) for k, v in c.constants.items()],
             [(k, repr(v)) for k, v in c.registers.items()],
@@ -88,6 +131,9 @@ def check(pl):
         return None
     if not (c == c):
         return "circuit does not equal itself"
+    lets = {k: v.value for k, v in c.constants.items()}
+    if sorted(map(str, sub_counts_text(text, lets))) != sorted(map(str, sub_counts_circ(c))):
+        return f"the circuit's subcircuit counts {sub_counts_circ(c)} are not the ones written in the text {sub_counts_text(text, lets)}"
     g1 = generate_jaqal_program(c)
     try:
         c2 = parse_native(g1)
